@@ -16,6 +16,10 @@ History stream (every tier): call sequences of HybridLoad objects with years [20
 8784-hour profile) / [2021], different horizons and direct calendar-helper calls, each sequence in one
 fresh interpreter; every object must meet the axis predicate of its own calendar year, equal the same
 object built alone, and agree with the (memoryless) model.
+Glue streams (every tier): real GHE objects whose last-month peak runs past the end of the horizon,
+axis re-checked after simulate(HYBRID)/size and compared bitwise with the freshly built object;
+GHEManager call histories (set_simulation_parameters several times, horizons 1..14 and longer, then
+set_design + find_design) judged against the last requested horizon.
 """
 from __future__ import annotations
 
@@ -184,6 +188,67 @@ def history_stream(ctx, phys, n_seq):
     ctx.count("history:sequences", len(seqs))
 
 
+def glue_streams(ctx, phys, quick):
+    """(1) The C06 GHE call history (real GHE objects, start months 1/2/4/7/12, leap load years) with
+    profiles whose last-month peak lies on the last day of the horizon and runs past its end: the axis
+    predicate after construction and after every simulate(HYBRID)/size, arrays bitwise unchanged.
+    (2) GHEManager call histories: set_simulation_parameters several times (the last horizon counts,
+    horizons 1..14 and longer), then set_design + find_design; the axis of `_search.ghe.hybrid_load`
+    is judged against the LAST requested horizon."""
+    jobs = H.ghe_history_jobs(ctx.rng, 8 if quick else 40, phys, "end_plateau") + H.ghe_history_jobs(ctx.rng, 3 if quick else 10, phys, "wave")
+    outs = core.pool_map(H.run_ghe_history, jobs)
+    for a, o in zip(jobs, outs):
+        label0 = f"GHE(start_month={a['start']}, end_month={a['end']}, load_years={a['years']}, {a['hours']}-hour {a['profile']} profile)"
+        replay = {"builder": "hybridlib.run_ghe_history", "args": {k: v for k, v in a.items() if k != "phys"}, "phys": a["phys"],
+                  "calls": "GHE(...); then simulate(HYBRID), simulate(HYBRID), size(HYBRID) on the same object; hybrid_load inspected after each"}
+        ctx.count(f"ghe-history:{a['profile']}/start-{a['start']}/years-{a['years'][0]}")
+        if "raise" in o:
+            ctx.case(("ghe-history", a["start"], a["end"], a["years"][0], a["seed"]), False)
+            ctx.finding("ghe-history-raise", f"{label0} raised {o['raise']}", replay)
+            continue
+        first = o["steps"][0][1]
+        for k, (name, snap) in enumerate(o["steps"]):
+            label = f"{label0} after {[n for n, _ in o['steps'][1:k + 1]] or 'construction'}"
+            ctx.case(("ghe-history", a["start"], a["end"], a["years"][0], a["seed"], k), True,
+                     {"ghe_history": label0, "steps": [n for n, _ in o["steps"]], "last_hours": snap["hour"][-3:]} if k == 0 and len(ctx.samples) < 6 else None)
+            mt = H.month_table(snap["monthly"])
+            recs12 = [(r["pcl"], r["phl"], r["dayc"], r["dayh"], r["dcl"], r["dhl"]) for r in mt][:12]
+            if k == 0 and a["profile"] == "end_plateau":
+                past = len(snap["hour"]) > 2 and snap["hour"][-2] >= snap["hour"][-1]
+                ctx.count("ghe-history:last-pulse-" + ("runs-past-the-horizon" if past else "inside-the-horizon"))
+            if not all(math.isfinite(x) for x in snap["hour"] + snap["load"]):
+                ctx.count("ghe-history:nonfinite-skipped")
+                break
+            axis_predicate(ctx, label, snap["load"], snap["hour"], recs12, a["start"], a["end"], dict(replay, step=k), year=a["years"][0],
+                           key_prefix="ghe-history-")
+            if k > 0 and (snap["hour"] != first["hour"] or snap["load"] != first["load"]):
+                j = next((j for j, (x, y) in enumerate(zip(snap["hour"], first["hour"])) if x != y), None)
+                ctx.finding("ghe-history-axis-changed", f"{label}: hybrid_load.hour/load are no longer those of the freshly built object"
+                            + (f" (hour[{j}] = {snap['hour'][j]!r} was {first['hour'][j]!r})" if j is not None else ""), dict(replay, step=k))
+                break
+    # ---- manager-level histories
+    hist = [[12, 30], [36, 7], [24, 24], [1], [7], [11], [12], [13], [14], [240, 11], [5, 13, 2]]
+    if not quick:
+        hist += [[ctx.rng.choice([1, 3, 6, 12, 25, 60]) for _ in range(ctx.rng.randint(1, 3))] for _ in range(20)]
+    jobs = [{"phys": phys, "seed": ctx.rng.randrange(1 << 30), "years": [2019], "hours": 8760, "horizons": h, "profile": "wave"} for h in hist]
+    outs = core.pool_map(H.run_manager_history, jobs)
+    for a, o in zip(jobs, outs):
+        n = a["horizons"][-1]
+        label = f"GHEManager: set_simulation_parameters(num_months) called with {a['horizons']}, then set_design + find_design: axis of _search.ghe.hybrid_load"
+        replay = {"builder": "hybridlib.run_manager_history", "args": {k: v for k, v in a.items() if k != "phys"}, "phys": a["phys"]}
+        ctx.count("manager-history:" + ("single-call" if len(a["horizons"]) == 1 else "repeated-calls") + ("/short-horizon" if n < 12 else ""))
+        if "raise" in o:
+            ctx.case(("manager-history", tuple(a["horizons"])), False)
+            ctx.finding("manager-history-raise", f"{label}: raised {o['raise']}", replay)
+            continue
+        snap = o["returned"]
+        ctx.case(("manager-history", tuple(a["horizons"]), a["seed"]), True,
+                 {"manager_history": a["horizons"], "last_hour": snap["hour"][-1]} if len(ctx.samples) < 6 else None)
+        mt = H.month_table(snap["monthly"])
+        recs12 = [(r["pcl"], r["phl"], r["dayc"], r["dayh"], r["dcl"], r["dhl"]) for r in mt][:12]
+        axis_predicate(ctx, label, snap["load"], snap["hour"], recs12, 1, n, replay, key_prefix="manager-history-")
+
+
 def run(ctx: core.Ctx):
     ctx.rule = ("case = (hourly profile | arbitrary monthly arrays, parameter set, horizon); every profile is run at every horizon of 1..36 and "
                 "{59,60,61,119,120,240,359,360}; profiles of the 14 kinds of C06; arbitrary monthly arrays also with start_month 2..13; "
@@ -253,6 +318,9 @@ def run(ctx: core.Ctx):
 
     # ------------------------------------------------------------------ call history: several objects / helper calls in ONE process
     history_stream(ctx, physs[0], 8 if quick else 40)
+
+    # ------------------------------------------------------------------ the glue: GHE simulate/size histories, GHEManager histories
+    glue_streams(ctx, physs[0], quick)
 
     # ------------------------------------------------------------------ arbitrary monthly arrays (incl. start_month > 1)
     arr = H.explore_process_only(ctx, 300 if quick else 6000)
